@@ -422,8 +422,11 @@ PROP = Prop(
     layers=[
         Layer("requests", strategy=cases, execute=execute, budget={"quick": 4000, "thorough": 120000}),
         Layer("resend", strategy=resend_cases, execute=execute_resend, budget={"quick": 600, "thorough": 20000}),
+        __import__("vf.props.real", fromlist=["layer_for"]).layer_for("C03", {"quick": 240, "thorough": 6000}),
     ],
-    assumptions=["the peer's own HTTP/1.1 request parser (vf/peers/h1.py) and hyperframe+hpack decoding (vf/peers/h2.py) are the independent decoders",
+    assumptions=["layer real-backends: uploads (bytes, iterators, 60 kB, 3 MB) through httpcore's own sync / anyio / trio backends over real sockets (partial "
+                 "socket writes, TLS records, TLS-in-TLS, HTTP/2 flow control): the peer model must receive method and body byte for byte, exactly once",
+                 "the peer's own HTTP/1.1 request parser (vf/peers/h1.py) and hyperframe+hpack decoding (vf/peers/h2.py) are the independent decoders",
                  "header names are compared case-insensitively on HTTP/1.1 (the property speaks of order and values)",
                  "connection-specific headers (Connection, TE, Upgrade, Keep-Alive, Cookie folding) and surrounding whitespace are a grey zone kept out of the generator"],
     explanation="Sampled request space; every transmission observed on any pipe is attributed by token and decoded independently.",
